@@ -284,6 +284,54 @@ def collect(hs, script, impl, model, judge, hangs, merr):
                 rec["judge_fails"].append(jf)
                 if rec["judge_fail"] is None:
                     rec["judge_fail"] = jf
+        # C01 / C18 read literally: a read never returns a line nobody appended ("nothing added", "never a line with a fabricated
+        # timestamp"). For a series whose content comes from appends of this history only (no foreign bytes were put into its
+        # data file), every (timestamp, payload) a full, bounded or first-n read returns must be one an accepted append wrote -
+        # whatever was torn or damaged in between. Computed from the script and the implementation's answers alone.
+        genuine, foreign, cur_name, cur_p = {}, set(), None, None
+        for j, op in enumerate(ops):
+            a = ri[j] if j < len(ri) else None
+            if a is None:
+                break
+            res = a[2:].split(" | ")[0].strip()
+            t = op.split()
+            ko = t[0]
+            if ko in ("new", "open"):
+                cur_name, cur_p = None, None
+                m = re.match(r"ok p=(\d+)", res)
+                if m:
+                    cur_name, cur_p = t[1], int(m.group(1))
+                    if ko == "new":
+                        genuine[cur_name] = set(); foreign.discard(cur_name)
+            elif ko == "close":
+                cur_name = None
+            elif ko in ("fs_append", "fs_write", "fs_trunc", "fs_asset") and len(t) > 1:
+                f = t[1]
+                if ko == "fs_asset":
+                    foreign.add(t[2] if len(t) > 2 else "")
+                elif f.startswith("data:"):
+                    foreign.add(f.split(":")[1])
+            elif ko == "push" and cur_name and res == "ok":
+                genuine.setdefault(cur_name, set()).add((int(t[1]), "" if t[2] == "-" else t[2]))
+            elif ko == "pushseq" and cur_name and cur_p is not None:
+                m = re.match(r"(?:ok|stop) (\d+)", res)
+                if m:
+                    ts0, step, seed = int(t[1]), int(t[2]), int(t[4])
+                    for i2 in range(int(m.group(1))):
+                        genuine.setdefault(cur_name, set()).add((ts0 + i2 * step, bytes((seed + 131 * i2 + 71 * q) % 256 for q in range(cur_p)).hex()))
+            elif ko in ("read_all", "read_first_n") and cur_name and cur_name in genuine and cur_name not in foreign and j not in failed_ops:
+                rt = res.split()
+                if len(rt) >= 2 and rt[0] == "ok" and rt[1].isdigit():
+                    for item in rt[2:]:
+                        tsx, _, payx = item.partition(":")
+                        if tsx.isdigit() and (int(tsx), "" if payx == "-" else payx) not in genuine[cur_name]:
+                            jf = {"op_index": j, "op": op, "what": "result %s :: returned the line %s that no accepted append of this history wrote" % (op, item),
+                                  "props": ["C18"] if plans.context(rec, j)["corrupt"] else (["C05", "C01"] if plans.context(rec, j)["torn"] else ["C01", "C02", "C13"]),
+                                  "consistency": True}
+                            rec["judge_fails"].append(jf)
+                            if rec["judge_fail"] is None:
+                                rec["judge_fail"] = jf
+                            break
         # C06 / C15 read literally on the bytes of a `dump` (tools/literal.py): a series that was created or opened with
         # success, closed normally, and whose files no fault operation touched since; C15 only for a series this history
         # created and never touched at all (a foreign file need not be canonical)
